@@ -248,6 +248,10 @@ def run_mode(a):
     files = project_files(types)
     if source == "flags":
         g = proj.generate(cli, files, mode=mode, tag="c06")
+    elif source.startswith("config-file-with-field-case="):
+        # the configured default convention for fields is another one: it is a default — a struct that states its own rename_all (and a
+        # field that states its own rename) is not touched by it
+        g = proj.generate(cli, files, mode=mode, tag="c06", config={"default_field_case": source.split("=", 1)[1], "default_parameter_case": "kebab-case"})
     elif source == "config-file":
         # a stand-alone configuration file that sets nothing but the paths and the library: every other setting takes its default
         g = proj.generate(cli, files, mode=mode, tag="c06", config={"verbose": False})
@@ -313,6 +317,7 @@ def run(tier):
             peritem[nm] = {vv: kk for kk, vv in val.items()} if isinstance(val, dict) else dict(enumerate(val))
         programs += 1
         variants = [(m, src) for m in ("none", "zod") for src in ("flags", "config-file", "tauri.conf.json")]
+        variants += [("none" if rno % 2 else "zod", "config-file-with-field-case=" + ["camelCase", "PascalCase", "kebab-case", "SCREAMING_SNAKE_CASE"][(rno + common.seed()) % 4])]
         res = common.pmap(run_mode, [(cli, types, m, src) for (m, src) in variants], workers=6)
         for (mode, source), r in zip(variants, res):
             stag = "" if source == "flags" else " settings-from=" + source
@@ -323,6 +328,8 @@ def run(tier):
                 v.inconclusive.append("generation failed for the C06 project: " + r["failed"])
                 continue
             for t in types:
+                if source.startswith("config-file-with-field-case=") and t["kind"] == "struct" and not t["rename_all"]:
+                    continue      # the configured default applies: not serde's names by design
                 want = truth[t["name"]]
                 got = r["names"][t["name"]]
                 if len(set(want)) != len(want):
